@@ -358,13 +358,21 @@ class Consumer(object):
         def _handle_shutdown_commit_failure(failure):
             """Handle failure of commit() attempted by shutdown"""
             if failure.check(OperationInProgress):
-                failure.value.deferred.addCallback(_commit_and_stop)
+                # Commit again once the in-flight commit is done, whether it
+                # succeeded or failed (a failure must not stall the shutdown).
+                failure.value.deferred.addCallbacks(_commit_and_stop, _in_progress_commit_failed)
                 return
 
             self._shutdown_d, d = None, self._shutdown_d
             self.stop()
             self._shuttingdown = False  # Shutdown complete
             d.errback(failure)
+
+        def _in_progress_commit_failed(failure):
+            """The commit we were waiting on failed: try our own, unless stop() cancelled it"""
+            if self._stopping and failure.check(CancelledError):
+                return
+            _commit_and_stop(None)
 
         def _commit_and_stop(result):
             """Commit the current offsets (if needed) and stop the consumer"""
